@@ -40,6 +40,9 @@ type RunResult struct {
 	Leaked     bool           `json:"leaked_goroutine,omitempty"`
 	Sample     string         `json:"sample,omitempty"`
 	Trace      *Trace         `json:"-"`
+	BlockLog   []BlockRec     `json:"-"`
+	AppState   []byte         `json:"-"`
+	Twin       string         `json:"twin,omitempty"`
 	EventLog   []byte         `json:"-"`
 }
 
@@ -85,7 +88,7 @@ func Execute(t *testing.T, tr *Trace, gen *Gen, prop string, bubble bool) *RunRe
 	}
 	res := &RunResult{Seed: tr.Seed, Property: prop, Violations: w.Viol, Blocks: w.St.Blocks, Txs: w.St.Txs, TxOK: w.St.TxOK, AnteFail: w.St.AnteFail,
 		Checks: w.St.Checks, CheckOK: w.St.CheckOK, SimSeconds: w.St.SimSeconds, Faults: w.St.Faults, Probes: w.St.Probes, Ops: w.St.OpOutcome,
-		Halted: w.St.Halted, EndedBy: w.EndedBy, Flags: tr.Flags, EventHash: w.EventLogHash(), Trace: tr, EventLog: w.EventLog(), Leaked: leaked}
+		Halted: w.St.Halted, EndedBy: w.EndedBy, Flags: tr.Flags, EventHash: w.EventLogHash(), Trace: tr, EventLog: w.EventLog(), Leaked: leaked, BlockLog: w.Log, AppState: w.AppState}
 	for _, k := range sortedKeys(w.St.StateDigests) {
 		res.States = append(res.States, k)
 	}
